@@ -50,7 +50,7 @@ NA.pop("C03", None)
 CHECKS["C19"] = (
     "proof",
     "static analysis: algebraic abstract interpretation of transformations.py (sin/cos as polynomial symbols), identities modulo s^2+c^2=1; constant-table extraction",
-    "Proves for all angles, axes and points (generic branches) that the 24 Euler conventions of euler_matrix are the products of elementary rotations their names spell, that euler_from_matrix reads the matching entries, that quaternion_from_euler yields unit quaternions of the same rotations, that rotation_matrix is the orthonormal det+1 Rodrigues form fixing its point, that in the gimbal-lock branch (middle angle 0 / pi or +-pi/2 exactly) the angles returned by euler_from_matrix rebuild the matrix for all 24 conventions, that transform_around is conjugation by the translation and that transform_points is homogeneous multiplication in 2D/3D; the convention tables are bijections; no matrix builder stores into an array that keeps the caller's dtype. The _EPS threshold itself, arctan2 ranges and compose/decompose are not decided.",
+    "Proves for all angles, axes and points (generic branches) that the 24 Euler conventions of euler_matrix are the products of elementary rotations their names spell, that euler_from_matrix reads the matching entries, that quaternion_from_euler yields unit quaternions of the same rotations, that rotation_matrix is the orthonormal det+1 Rodrigues form fixing its point, that in the gimbal-lock branch (middle angle 0 / pi or +-pi/2 exactly) the angles returned by euler_from_matrix rebuild the matrix for all 24 conventions, that quaternion_matrix(q) is the rotation of q/|q| (orthonormal, det +1, same for q and -q), that each of the four largest-diagonal branches of quaternion_from_matrix(isprecise=True) returns +-q of unit norm, that quaternion_multiply composes rotations (Hamilton product) and quaternion_about_axis is the half-angle form of rotation_matrix, that transform_around is conjugation by the translation and that transform_points is homogeneous multiplication in 2D/3D; the convention tables are bijections; no matrix builder stores into an array that keeps the caller's dtype. The _EPS threshold itself, arctan2 ranges, the eigenvector branch of quaternion_from_matrix, slerp, rotation_from_matrix and compose/decompose are not decided.",
     "Trusted: sympy normal forms; E3 transfer functions; reduction modulo s^2+c^2=1 by substitution; reference fixed by the convention name (static: R_a3 R_a2 R_a1, rotating: R_a1 R_a2 R_a3).",
     "DESIGN.md#c19",
 )
